@@ -33,6 +33,12 @@ func (tc *TaskCompiler) CompileTask(t *task.Task, executionContext *ExecutionCon
 			continue
 		}
 
+		// what a task printed is data, not a template: an output that happens to contain "{{" must
+		// not make every later task fail to compile
+		if strings.HasPrefix(k, "Tasks.") && strings.HasSuffix(k, ".Output") {
+			continue
+		}
+
 		v, err := utils.RenderString(v.(string), vars.Map())
 		if err != nil {
 			return nil, err
